@@ -23,6 +23,7 @@ type replayJob struct {
 	Entries  []vrt.Entry `json:"entries"`
 	Repeat   int         `json:"repeat"` // run up to Repeat times until an assertion fails / panic (map order)
 	WantFail bool        `json:"want_fail"`
+	Thorough bool        `json:"thorough"` // the path was explored at the thorough bounds
 }
 
 type replayOut struct {
@@ -123,6 +124,7 @@ func TestReplay(t *testing.T) {
 		if n < 1 {
 			n = 1
 		}
+		vrt.NativeThorough = j.Thorough
 		for i := 0; i < n; i++ {
 			tries++
 			if loopTicksReset != nil {
